@@ -484,6 +484,57 @@ fn axis_plan(in_size: u32, origin: f64, extent: f64, out: u32, f: u8, adaptive: 
     }
 }
 
+/// Range of input samples an axis plan can touch (including the untrimmed windows used for the noise term).
+fn plan_span(p: &AxisPlan, size: usize) -> (usize, usize) {
+    match p {
+        AxisPlan::Identity { offset, out } => (*offset, (*offset + *out).min(size).max(*offset)),
+        AxisPlan::Resample(w) => {
+            let mut lo = size;
+            let mut hi = 0;
+            for win in &w.wins {
+                lo = lo.min(win.start).min(win.full_start);
+                let len = win.variants.first().map(|v| v.len()).unwrap_or(0);
+                hi = hi.max(win.start + len).max(win.full_start + win.full_len);
+            }
+            if lo >= hi {
+                (0, size)
+            } else {
+                (lo, hi.min(size))
+            }
+        }
+    }
+}
+
+fn shift_plan(p: &mut AxisPlan, delta: usize) {
+    match p {
+        AxisPlan::Identity { offset, .. } => *offset -= delta,
+        AxisPlan::Resample(w) => {
+            for win in w.wins.iter_mut() {
+                win.start -= delta;
+                win.full_start -= delta;
+            }
+        }
+    }
+}
+
+fn restrict(g: &Grid, x0: usize, x1: usize, y0: usize, y1: usize) -> Grid {
+    let (w, h) = (x1 - x0, y1 - y0);
+    let mut out = Grid {
+        w,
+        h,
+        ch: g.ch,
+        lo: Vec::with_capacity(w * h * g.ch),
+        hi: Vec::with_capacity(w * h * g.ch),
+    };
+    for y in y0..y1 {
+        let a = g.idx(x0, y, 0);
+        let b = a + w * g.ch;
+        out.lo.extend_from_slice(&g.lo[a..b]);
+        out.hi.extend_from_slice(&g.hi[a..b]);
+    }
+    out
+}
+
 /// Convolution / Interpolation of `src` (crop l,t,cw,ch) to dw×dh.
 #[allow(clippy::too_many_arguments)]
 pub fn convolve(
@@ -501,8 +552,21 @@ pub fn convolve(
     if dw == 0 || dh == 0 || !(cw > 0.0) || !(chh > 0.0) {
         return Err(ModelSkip::ZeroSize);
     }
-    let hp = axis_plan(src.w as u32, l, cw, dw, f, adaptive)?;
-    let vp = axis_plan(src.h as u32, t, chh, dh, f, adaptive)?;
+    let mut hp = axis_plan(src.w as u32, l, cw, dw, f, adaptive)?;
+    let mut vp = axis_plan(src.h as u32, t, chh, dh, f, adaptive)?;
+    // work only on the part of the source the windows of both axes can touch (a 300,000-pixel-wide image
+    // with a narrow crop would otherwise be resampled vertically in full)
+    let (x0, x1) = plan_span(&hp, src.w);
+    let (y0, y1) = plan_span(&vp, src.h);
+    let sub;
+    let src = if (x1 - x0) * (y1 - y0) < src.w * src.h {
+        sub = restrict(src, x0, x1, y0, y1);
+        shift_plan(&mut hp, x0);
+        shift_plan(&mut vp, y0);
+        &sub
+    } else {
+        src
+    };
     let h_ident = matches!(hp, AxisPlan::Identity { .. });
     let v_ident = matches!(vp, AxisPlan::Identity { .. });
     let mut max_taps = 0;
